@@ -20,7 +20,8 @@ package core
 
 //@ func storeEDS
 //@   property C15
-//@   noframe
+//@   havoc $PutQ4 $PutODS $PutErr
+//@   effect $StoreOK := result == nil
 //@   requires eh != nil && !$PutQ4 && !$PutODS && !$PutErr
 //@   callpre Store).PutODSQ4: $arg2 == eh.DAH && $arg3 == eh.Height() && $arg4 == eds
 //@   callpre Store).PutODS: $arg2 == eh.DAH && $arg3 == eh.Height() && $arg4 == eds
@@ -28,3 +29,49 @@ package core
 //@   ensures !availability.IsWithinWindow(eh.Time(), window) && archival ==> $PutODS && !$PutQ4
 //@   ensures !availability.IsWithinWindow(eh.Time(), window) && !archival ==> !$PutODS && !$PutQ4 && result == nil
 //@   ensures $PutErr <==> result != nil
+
+// Ingest of one announced height. Ghost state: $Had (the store already has the height), $BlockFetched
+// (the block body was downloaded), $StoreOK (storeEDS returned nil), $Published (the extended header
+// was handed to the broadcaster). dahOf(eds): the data availability header of a square (celestia-app,
+// assumed). For every event and every outcome of every call: a height the store already has is neither
+// fetched nor processed; the block and the sync state are asked from the source that announced the
+// event; a pruned node drops a block outside the window before processing it; the square that is
+// stored is the one whose DAH the constructed header carries; the header that is published is that
+// header, and only after the store accepted the square; a store failure is reported and nothing is
+// published.
+//@ pure func dahOf(eds *rsmt2d.ExtendedDataSquare) da.DataAvailabilityHeader
+
+//@ extern (github.com/celestiaorg/go-header.Broadcaster).Broadcast
+//@   effect $Published := true
+// (reads only)
+//@ extern (*github.com/celestiaorg/celestia-app/v9/pkg/da.DataAvailabilityHeader).SquareSize
+//@ extern (*github.com/celestiaorg/celestia-app/v9/pkg/da.DataAvailabilityHeader).String
+//@ extern (github.com/celestiaorg/celestia-node/core.Fetcher).GetSignedBlockFrom
+//@   effect $BlockFetched := true
+//@   ensures err == nil ==> result0 != nil
+//@ extern (*github.com/celestiaorg/celestia-node/store.Store).HasByHeight
+//@   effect $Had := result0
+
+//@ func (*Listener).handleNewBlockEvent
+//@   property C15
+//@   noframe
+//@   requires cl != nil && !$Had && !$BlockFetched && !$Processed && !$StoreOK && !$Published && !$PutQ4 && !$PutODS && !$PutErr
+//@   callpre Fetcher).GetSignedBlockFrom: !$Had && $arg2 == ev
+//@   callpre Fetcher).IsSyncingFrom: $arg2 == ev
+//@   callpre Listener).handleNewSignedBlock: (cl.archival || availability.IsWithinWindow(b.Header.Time, cl.availabilityWindow)) && $arg2 == ev && $arg3 == b && $arg4 == syncing
+//@   ensures $Had ==> !$BlockFetched && !$Processed && result == nil
+//@   ensures $Processed ==> $BlockFetched
+
+//@ func (*Listener).handleNewSignedBlock
+//@   property C15
+//@   noframe
+//@   requires cl != nil && b != nil && !$StoreOK && !$Published && !$PutQ4 && !$PutODS && !$PutErr
+//@   havoc $StoreOK $Published $PutQ4 $PutODS $PutErr
+//@   param .construct: ensures $result1 == nil ==> $result0 != nil && deref($result0.DAH) == dahOf($arg3)
+//@   callpre core.storeEDS: $arg1 == eh && $arg2 == eds
+//@   callpre core.storeEDS: deref(eh.DAH) == dahOf(eds)
+//@   callpre core.storeEDS: $arg3 == cl.store && $arg4 == cl.availabilityWindow && $arg5 == cl.archival
+//@   callpre Broadcast: $StoreOK && $arg2 == eh
+//@   effect $Processed := true
+//@   ensures result == nil ==> $StoreOK && $Published
+//@   ensures !$StoreOK ==> !$Published && result != nil
